@@ -29,6 +29,7 @@ type c20Date struct {
 	OK      bool
 	D, M, Y int
 	Label   int    // identifies an unparsable value within the document
+	General bool   // not an exact day and not plainly unparsable: decided by the model's parser only
 	Text    string // the GEDCOM value
 }
 
@@ -111,6 +112,76 @@ func c20Bad(r *Rand, label int) c20Date {
 	return c20Date{Label: label, Text: s}
 }
 
+// c20General is a DATE value around the given day that is neither an exact day nor plain garbage:
+// approximate / before / after, month or year precision, ranges of every width, half-parsed ranges,
+// odd spacing and case, years outside 1..9999. What it means is decided by the parser (C04's model
+// on the Lean side); the Go oracle does not judge documents that contain one.
+func c20General(r *Rand, day int64, oddYears bool) c20Date {
+	y, m, d := c20Civil(day)
+	mon := c20MonthForms[m-1][r.Intn(4)]
+	full := fmt.Sprintf("%d %s %d", d, mon, y)
+	y2, m2, d2 := c20Civil(day + int64(c20Pick(r, []int{1, 2, 30, 200, 273, 274, 400, 5000, -3, -400})))
+	full2 := fmt.Sprintf("%d %s %d", d2, c20MonthForms[m2-1][0], y2)
+	var s string
+	shape := r.Intn(24)
+	if !oddYears && (shape == 16 || shape == 17) {
+		// a year 0 or above 9999 in a birth or death makes the lifespan exceed 292 years, where the
+		// float64 -> int64 conversion in NewAgeWithYears is platform-defined (see props/C20.json)
+		shape = 4
+	}
+	switch shape {
+	case 0:
+		s = "Abt. " + full
+	case 1:
+		s = "ABT " + full
+	case 2:
+		s = "Bef. " + full
+	case 3:
+		s = "aft " + full
+	case 4:
+		s = fmt.Sprintf("%s %d", mon, y)
+	case 5:
+		s = strconv.Itoa(y)
+	case 6:
+		s = fmt.Sprintf("Abt. %d", y)
+	case 7:
+		s = fmt.Sprintf("Bef. %s %d", mon, y)
+	case 8:
+		s = "Bet. " + full + " and " + full2
+	case 9:
+		s = "Between " + full2 + " and " + full
+	case 10:
+		s = fmt.Sprintf("From %d to %d", y, y+r.Intn(3))
+	case 11:
+		s = fmt.Sprintf("%d - %d", y, y+1)
+	case 12:
+		s = "Bet. " + full + " and " + full // a single day written as a range
+	case 13:
+		s = "Bet. garbage and " + full
+	case 14:
+		s = "Bet. " + full + " and nonsense"
+	case 15:
+		s = "  " + strings.Replace(full, " ", "   ", -1) + " "
+	case 16:
+		s = fmt.Sprintf("%d %s 0", d, mon)
+	case 17:
+		s = fmt.Sprintf("%d %s %d", d, mon, 10000+y)
+	case 18:
+		s = fmt.Sprintf("circa %d", y)
+	case 19:
+		s = fmt.Sprintf("After %s %d", mon, y)
+	case 20:
+		s = fmt.Sprintf("Bet. %s %d and %s %d", mon, y, c20MonthForms[m2-1][0], y2)
+	case 21:
+		s = fmt.Sprintf("Abt. %d and more", y)
+	case 22:
+		s = fmt.Sprintf("%d %d", d, y) // a day without a month
+	default:
+		s = fmt.Sprintf("Bet. Abt. %d and Bef. %d", y, y+2)
+	}
+	return c20Date{General: true, Text: s}
+}
+
 // ---------------------------------------------------------------- rendering
 
 func (d *c20Doc) text() string {
@@ -173,11 +244,7 @@ func (d *c20Doc) request(now time.Time) string {
 		for _, e := range es {
 			fmt.Fprintf(&sb, " %s %d", e.Kind, len(e.Dates))
 			for _, dt := range e.Dates {
-				if dt.OK {
-					fmt.Fprintf(&sb, " %d.%d.%d", dt.D, dt.M, dt.Y)
-				} else {
-					fmt.Fprintf(&sb, " b%d", dt.Label)
-				}
+				sb.WriteString(" h" + hexs(dt.Text)) // the model parses the value itself
 			}
 		}
 	}
@@ -257,8 +324,19 @@ func c20Observe(doc *gedcom.Document, labels map[string]int) (o c20Obs, panicked
 		}
 	}
 	dstr := func(dr gedcom.DateRange) string {
-		s := dr.StartDate()
-		return fmt.Sprintf("%d.%d.%d", s.Day, int(s.Month), s.Year)
+		s, e := dr.StartDate(), dr.EndDate()
+		return fmt.Sprintf("%d.%d.%d-%d.%d.%d", s.Day, int(s.Month), s.Year, e.Day, int(e.Month), e.Year)
+	}
+	// position of every DATE node in the document (records, events, dates in file order)
+	pos := map[*gedcom.DateNode]int{}
+	for _, rec := range doc.Nodes() {
+		for _, ev := range rec.Nodes() {
+			for _, g := range ev.Nodes() {
+				if dn, ok := g.(*gedcom.DateNode); ok {
+					pos[dn] = len(pos)
+				}
+			}
+		}
 	}
 	for _, w := range doc.Warnings() {
 		switch x := w.(type) {
@@ -299,7 +377,8 @@ func c20Observe(doc *gedcom.Document, labels map[string]int) (o c20Obs, panicked
 			k2, k1 := c20KindOfTag[x.FirstEvent.Tag().Tag()], c20KindOfTag[x.SecondEvent.Tag().Tag()]
 			s := fmt.Sprintf("%s %s %s %s %s", i, k2, dstr(x.FirstDateRange), k1, dstr(x.SecondDateRange))
 			parts = append(parts, "ORD "+s)
-			o.Keys = append(o.Keys, "IncorrectEventOrder I"+s)
+			f1, f2 := x.FirstDateRange.StartDate(), x.SecondDateRange.StartDate()
+			o.Keys = append(o.Keys, fmt.Sprintf("IncorrectEventOrder I%s %s %d.%d.%d %s %d.%d.%d", i, k2, f1.Day, int(f1.Month), f1.Year, k1, f2.Day, int(f2.Month), f2.Year))
 			mention(w, i)
 		case *gedcom.UnparsableDateWarning:
 			ctx := ""
@@ -316,7 +395,11 @@ func c20Observe(doc *gedcom.Document, labels map[string]int) (o c20Obs, panicked
 			if !ok {
 				ls = "value:" + hexs(x.Date.Value())
 			}
-			parts = append(parts, fmt.Sprintf("BAD %s %s", ctx, ls))
+			pl := "?"
+			if n, ok := pos[x.Date]; ok {
+				pl = strconv.Itoa(n)
+			}
+			parts = append(parts, fmt.Sprintf("BAD %s %s", ctx, pl))
 			o.Keys = append(o.Keys, fmt.Sprintf("UnparsableDate %s %s", ctx, ls))
 			if !strings.Contains(w.String(), x.Date.Value()) {
 				o.Errs = append(o.Errs, "UnparsableDate: text does not quote the value")
@@ -633,9 +716,14 @@ type c20Gen struct {
 	label   int
 	labels  map[string]int
 	badRate int // one in badRate dates is unparsable (0 = never)
+	genRate int // one in genRate dates is a non-exact value (0 = never)
+	oddYears bool // years 0 / above 9999 allowed (not in births, baptisms, deaths, burials)
 }
 
 func (g *c20Gen) date(day int64) c20Date {
+	if g.genRate > 0 && g.r.Chance(1, g.genRate) {
+		return c20General(g.r, day, g.oddYears)
+	}
 	if g.badRate > 0 && g.r.Chance(1, g.badRate) {
 		g.label++
 		b := c20Bad(g.r, g.label)
@@ -656,6 +744,9 @@ func c20Generate(r *Rand, maxPeople int, style string) (*c20Doc, map[string]int)
 		g.badRate = 0
 	case "faulty":
 		g.badRate = 12
+	case "general":
+		g.badRate = 25
+		g.genRate = 3
 	default:
 		g.badRate = 40
 	}
@@ -775,6 +866,7 @@ func c20Generate(r *Rand, maxPeople int, style string) (*c20Doc, map[string]int)
 		}
 		b := birth[i]
 		add := func(kind, tag string, days ...int64) {
+			g.oddYears = kind == "OTHER"
 			e := c20Ev{Kind: kind, Tag: tag}
 			for _, d := range days {
 				e.Dates = append(e.Dates, g.date(d))
@@ -860,6 +952,7 @@ func c20Generate(r *Rand, maxPeople int, style string) (*c20Doc, map[string]int)
 	// are produced by c20Boundary, not here.
 
 	// marriages
+	g.oddYears = true
 	for _, f := range fams {
 		nm := 0
 		switch x := r.Intn(10); {
@@ -1042,9 +1135,31 @@ func c20Run(c *Ctx, d *c20Doc, labels map[string]int, style string, permute bool
 	c.Eval()
 	c.Tie(d.request(now), obs.Line)
 
-	// (S1) the report is the specified multiset
+	// (S1) the report is the specified multiset (documents of exact days and plain garbage only:
+	// what a non-exact value means is the parser's business, judged by the correspondence)
+	hasGeneral := false
+	for _, rec := range d.Recs {
+		evs := []c20Ev{}
+		if rec.I != nil {
+			evs = rec.I.Events
+		} else {
+			evs = rec.F.Events
+		}
+		for _, e := range evs {
+			for _, dt := range e.Dates {
+				if dt.General {
+					hasGeneral = true
+				}
+			}
+		}
+	}
 	spec := c20Expected(d)
 	got := c20Multiset(obs.Keys)
+	if hasGeneral {
+		c.Count("oracle-S1-skipped-non-exact-dates")
+		spec = c20Spec{Want: map[string]int{}, Unclear: map[string]bool{}, Multi: map[string]bool{}}
+		got = map[string]int{}
+	}
 	var diffs, knownDiffs []string
 	seenKinds := map[string]bool{}
 	for k, n := range got {
@@ -1167,6 +1282,8 @@ func init() {
 				style = "clean"
 			case 1, 2, 3:
 				style = "faulty"
+			case 4, 5, 6:
+				style = "general"
 			}
 			mp := maxPeople
 			if k%17 == 0 {
